@@ -7,14 +7,24 @@
    Model/Checker.v (plugged in by Model/DataclassEval.v for the correspondence run) and for any other.
    Quantification: all class chains (any number of fields, defaults, default_factory, init=False,
    any depth of inheritance, decorated and undecorated subclasses, every slots/order/kw_only/type_safe
-   choice per class), all heaps, all keyword assignments, the three construction paths. *)
+   choice per class, user-written __post_init__ bodies that assign attributes of the object with
+   object.__setattr__, call super().__post_init__() and return or raise), all heaps, all keyword
+   assignments, the three construction paths.
+
+   Vocabulary.  path_candidate: the object dataclasses builds before __post_init__ runs (the constructor's own
+   keyword binding, replace()'s, or deep_copy_with's deep-copied arguments).  post_init_run: the whole of
+   __post_init__ on that object as a pure function of the heap (Proofs/DataclassC10.v: the mirror of Model.run_pi
+   in which the validation loop is Spec.first_reject), returning (journal events, heap it leaves, outcome).
+   hooks_run: the part of it below the stacked new_post_init wrappers, i.e. the user-written code (for hierarchies
+   with several type-safe layers separated by hooks that call super() it contains the inner validations). *)
 From Coq Require Import List ZArith Bool Arith Lia.
 From PV Require Import Base.Exn Model.Dataclass Spec.DataclassSpec Proofs.DataclassBase Proofs.DataclassRef
-  Proofs.DataclassC10 Gen.Dataclass.
+  Proofs.DataclassC10 Proofs.DataclassC11 Proofs.DataclassSucceeds Gen.Dataclass.
 From PV Require Base.Values Base.Ann Spec.Conforms Proofs.CheckerGood Model.DataclassEval Proofs.DataclassReal.
 Import ListNotations.
 
 Definition P : prog := Gen.Dataclass.dc_prog.
+Definition defs := p_defaults P.
 
 (* translation obligation: the regenerated decorator is the member of the family the proofs are about
    (dataclass(frozen=True, order=, kw_only=, slots=); new_post_init = old, get_context, validate_types,
@@ -24,74 +34,142 @@ Theorem C10_prog_good : prog_good P = true.
 Proof. vm_compute. reflexivity. Qed.
 Print Assumptions C10_prog_good.
 
-Lemma P_ref : P = ref_prog (p_defaults P).
+Lemma P_ref : P = ref_prog defs.
 Proof. apply prog_good_eq, C10_prog_good. Qed.
 
-(* FULL STATEMENT (false on the current tree, see C10_instance_iff_conforming_refuted and C10_subclass_post_init_refuted;
-   there for every class C that has a type-safe layer, here already for the validating ones):
-     forall check C p st st1 r, validating P C = true -> path_candidate P C p st = (st1, Ok r) ->
-       user_raises (resolve_pi P C) = None ->
-       snd (run_path P check C p st) = Ok r <-> all_conform (check true) (s_heap st1) (dc_fields C) r = true
-   i.e. with the names visible where the object is built.  What holds without any guard: *)
+(* ---------------------------------------------------------------- a well-formed request is never refused *)
+(* every keyword names a field of __init__; the constructor is given every field without default; the receiver of
+   copy_with / deep_copy_with holds a value for every field of __init__ (Spec.path_request_ok).  Then dataclasses
+   builds the candidate - no TypeError / ValueError / AttributeError from the binding, on any of the three paths *)
+Theorem C10_candidate_exists : forall C D p st,
+  nearest_deco C = Some D -> path_request_ok (dc_fields C) p (s_heap st) = true ->
+  exists st1 r, path_candidate P C p st = (st1, Ok r).
+Proof. rewrite P_ref. intros. eapply path_candidate_ok; eassumption. Qed.
+Print Assumptions C10_candidate_exists.
 
-(* the exact characterisation: the object that dataclasses built (path_candidate: the constructor's own
-   keyword binding, replace()'s, or deep_copy_with's deep-copied arguments) is returned iff every field
-   conforms under every context in which the path validates it; otherwise the exception of the first
-   failing check leaves and no instance is returned *)
-Theorem C10_instance_iff_all_contexts : forall check C p st st1 r,
+(* ... and whether an instance is RETURNED is decided by __post_init__ on that candidate alone: always when the generated
+   __init__ does not call it (no type-safe layer, no user hook), else iff post_init_run returns; the instance is the
+   candidate *)
+Theorem C10_request_decided_by_post_init : forall check C D p st,
+  nearest_deco C = Some D -> path_request_ok (dc_fields C) p (s_heap st) = true ->
+  exists st1 r, path_candidate P C p st = (st1, Ok r) /\
+    (init_calls_pi P D = false -> run_path P check C p st = (st1, Ok r)) /\
+    (init_calls_pi P D = true ->
+       ((exists st', run_path P check C p st = (st', Ok r)) <->
+        snd (post_init_run defs check C p r (s_heap st1)) = Ok tt) /\
+       (forall st' x, run_path P check C p st = (st', Ok x) -> x = r)).
+Proof. rewrite P_ref. intros. eapply path_succeeds; eassumption. Qed.
+Print Assumptions C10_request_decided_by_post_init.
+
+(* ---------------------------------------------------------------- the check decides, on the heap the hooks leave *)
+(* the run of a validating class: the user-written part first (hooks_run); if it raises, that exception leaves and the
+   wrappers check nothing; else every stacked wrapper validates the heap h2 it left, and the outcome is theirs *)
+Lemma run_validating : forall check C p st st1 r,
+  validating P C = true -> path_candidate P C p st = (st1, Ok r) ->
+  run_path P check C p st =
+  match hooks_run defs check C p r (s_heap st1) with
+  | (e0, h2, Ok _) =>
+    (mkSt h2 (s_journal st1 ++ e0 ++ fst (val_seq check C r (vis_list (resolve_pi P C) (path_via p) 0) h2)),
+     match validations defs check C (path_via p) h2 r with Ok _ => Ok r | Raise e => Raise e end)
+  | (e0, h2, Raise e) => (mkSt h2 (s_journal st1 ++ e0), Raise e)
+  end.
+Proof.
+  rewrite P_ref. intros check C p st st1 r Hv Hc. unfold validating in Hv.
+  destruct (nearest_deco C) as [D|] eqn:HD; [|discriminate]. apply andb_true_iff in Hv as [Hi _].
+  rewrite (path_outcome defs check C D p st st1 r HD Hi Hc). rewrite post_init_wrapped.
+  destruct (hooks_run defs check C p r (s_heap st1)) as [[e0 h2] [[]|e]]; reflexivity.
+Qed.
+
+(* FULL STATEMENT (false on the current tree, see C10_instance_iff_conforming_refuted, C10_subclass_post_init_refuted and
+   C10_init_false_without_default_refuted; there for every class C that has a type-safe layer):
+     forall check C p st st1 r e0 h2, path_candidate P C p st = (st1, Ok r) ->
+       hooks_run defs check C p r (s_heap st1) = (e0, h2, Ok tt) ->
+       (snd (run_path P check C p st) = Ok r <-> all_conform (check true) h2 (dc_fields C) r = true) /\
+       (snd (run_path P check C p st) <> Ok r -> exists e, snd (run_path ...) = Raise e /\ derives e PTypeCheckC = true)
+   i.e. with the names visible where the object is built.  What holds without any guard beyond `validating`: *)
+
+(* the exact characterisation: the candidate is returned iff every field - with the values the user-written __post_init__
+   left (heap h2, AFTER the hooks) - conforms under every context in which the path validates it; otherwise the exception
+   of the first failing check leaves and no instance is returned; the returned object lives in h2 *)
+Theorem C10_instance_iff_all_contexts : forall check C p st st1 r e0 h2,
   validating P C = true ->
   path_candidate P C p st = (st1, Ok r) ->
-  user_raises (resolve_pi P C) = None ->
+  hooks_run defs check C p r (s_heap st1) = (e0, h2, Ok tt) ->
   (snd (run_path P check C p st) = Ok r <->
    forall b, In b (vis_list (resolve_pi P C) (path_via p) 0) ->
-             all_conform (check b) (s_heap st1) (dc_fields C) r = true) /\
+             all_conform (check b) h2 (dc_fields C) r = true) /\
   (forall x, snd (run_path P check C p st) = Ok x -> x = r) /\
   (forall e, snd (run_path P check C p st) = Raise e ->
      exists b, In b (vis_list (resolve_pi P C) (path_via p) 0) /\
-               first_reject (check b) (s_heap st1) (dc_fields C) r = Some e).
+               first_reject (check b) h2 (dc_fields C) r = Some e) /\
+  s_heap (fst (run_path P check C p st)) = h2.
 Proof.
-  rewrite P_ref. intros check C p st st1 r Hv Hc Hu.
-  rewrite (path_outcome _ check C p st st1 r Hv Hc). rewrite Hu. cbn [snd].
-  pose proof (validations_ok (p_defaults P) check C (path_via p) (s_heap st1) r) as Hok.
-  destruct (validations (p_defaults P) check C (path_via p) (s_heap st1) r) as [[]|e] eqn:E.
-  - split; [|split].
+  intros check C p st st1 r e0 h2 Hv Hc Hh. rewrite (run_validating check C p st st1 r Hv Hc), Hh. cbn [fst snd s_heap].
+  pose proof (validations_ok defs check C (path_via p) h2 r) as Hok. rewrite <- P_ref in Hok.
+  pose proof (validations_raise defs check C (path_via p) h2 r) as Hr. rewrite <- P_ref in Hr.
+  destruct (validations defs check C (path_via p) h2 r) as [[]|e] eqn:E.
+  - split; [|split; [|split]].
     + split; [intros _; now apply Hok|reflexivity].
     + intros x Hx. now inversion Hx.
     + intros e He. discriminate.
-  - split; [|split].
+    + reflexivity.
+  - split; [|split; [|split]].
     + split; [discriminate|]. intro H. apply Hok in H. discriminate.
     + intros x Hx. discriminate.
-    + intros e' He. inversion He. subst e'. unfold validations in E.
-      revert E. generalize (vis_list (resolve_pi (ref_prog (p_defaults P)) C) (path_via p) 0).
-      induction l as [|b l IH]; simpl; [discriminate|].
-      destruct (first_reject (check b) (s_heap st1) (dc_fields C) r) as [e1|] eqn:E1; simpl.
-      * intro H. inversion H. subst. exists b. split; [now left|assumption].
-      * intro H. destruct (IH H) as [b' [B1 B2]]. exists b'. split; [now right|assumption].
+    + intros e' He. inversion He. subst e'. now apply Hr.
+    + reflexivity.
 Qed.
 Print Assumptions C10_instance_iff_all_contexts.
 
-(* the property on all three paths, under the exact guards that exclude the two refuted regions:
+(* a failure of the user-written part (its own raise, AttributeError of object.__setattr__ on a class without __dict__,
+   the TypeError of super() in a slots=True class, a failing inner validation) leaves as it is; no instance *)
+Theorem C10_hook_failure_propagates : forall check C p st st1 r e0 h2 e,
+  validating P C = true ->
+  path_candidate P C p st = (st1, Ok r) ->
+  hooks_run defs check C p r (s_heap st1) = (e0, h2, Raise e) ->
+  run_path P check C p st = (mkSt h2 (s_journal st1 ++ e0), Raise e).
+Proof.
+  intros check C p st st1 r e0 h2 e Hv Hc Hh. now rewrite (run_validating check C p st st1 r Hv Hc), Hh.
+Qed.
+Print Assumptions C10_hook_failure_propagates.
+
+(* what the user-written part is when the hook does not call super() (and when there is none): its journal entry, then
+   the assignments object.__setattr__(self, n, v) of its body applied in order to the candidate (plain_hook: each one
+   needs a field name or an instance __dict__, else AttributeError), then its return / raise.  Nothing is checked
+   inside it, so h2 above IS the candidate's heap with these assignments applied *)
+Theorem C10_plain_hook_effect : forall check C p r h1,
+  validating P C = true ->
+  (user_of (resolve_pi P C) = None -> hooks_run defs check C p r h1 = ([], h1, Ok tt)) /\
+  (forall c b, user_of (resolve_pi P C) = Some (c, b) -> no_super (pb_body b) = true ->
+     hooks_run defs check C p r h1 = ([EPi c], fst (plain_hook defs C r b h1), snd (plain_hook defs C r b h1))).
+Proof.
+  rewrite P_ref. intros check C p r h1 Hv. unfold validating in Hv.
+  destruct (nearest_deco C) as [D|]; [|discriminate]. apply andb_true_iff in Hv as [_ Hn]. unfold hooks_run. split.
+  - intro Hu. now rewrite (core_no_user _ (resolve_pi_wf defs C) Hn Hu).
+  - intros c b Hu Hs. destruct (core_user _ _ _ Hu) as [slots [sup Hc]]. rewrite Hc. now apply pi_spec_plain_user.
+Qed.
+Print Assumptions C10_plain_hook_effect.
+
+(* the property on all three paths, under the exact guards that exclude two of the refuted regions:
    `validating` (the __post_init__ attribute of the class still is a new_post_init: no subclass below the type-safe
    layer replaced it, see C10_subclass_post_init_refuted) and `ctx_irrelevant` (this path validates in the caller's
    context only, or the checker's verdict on the annotations of THIS class does not depend on names local to the
    caller - every class without a forward reference to a function-local class, see C10_instance_iff_conforming_refuted) *)
-Theorem C10_instance_iff_conforming_partial : forall check C p st st1 r,
-  ctx_irrelevant (p_defaults P) check C (path_via p) ->
+Theorem C10_instance_iff_conforming_partial : forall check C p st st1 r e0 h2,
+  ctx_irrelevant defs check C (path_via p) ->
   validating P C = true ->
   path_candidate P C p st = (st1, Ok r) ->
-  user_raises (resolve_pi P C) = None ->
-  (all_conform (check true) (s_heap st1) (dc_fields C) r = true -> snd (run_path P check C p st) = Ok r) /\
-  (all_conform (check true) (s_heap st1) (dc_fields C) r = false ->
-     exists e, first_reject (check true) (s_heap st1) (dc_fields C) r = Some e /\
+  hooks_run defs check C p r (s_heap st1) = (e0, h2, Ok tt) ->
+  (all_conform (check true) h2 (dc_fields C) r = true -> snd (run_path P check C p st) = Ok r) /\
+  (all_conform (check true) h2 (dc_fields C) r = false ->
+     exists e, first_reject (check true) h2 (dc_fields C) r = Some e /\
                snd (run_path P check C p st) = Raise e).
 Proof.
-  rewrite P_ref. intros check C p st st1 r Hi Hv Hc Hu.
-  change (p_defaults (ref_prog (p_defaults P))) with (p_defaults P) in Hi.
-  rewrite (path_outcome _ check C p st st1 r Hv Hc). rewrite Hu. cbn [snd].
-  assert (Hn : is_new (resolve_pi (ref_prog (p_defaults P)) C) = true).
-  { unfold validating in Hv. destruct (nearest_deco C); [|discriminate]. now apply andb_true_iff in Hv as [_ Hv]. }
-  rewrite (validations_guarded _ check C (path_via p) (s_heap st1) r Hi Hn).
-  destruct (first_reject (check true) (s_heap st1) (dc_fields C) r) as [e|] eqn:E.
+  intros check C p st st1 r e0 h2 Hi Hv Hc Hh. rewrite (run_validating check C p st st1 r Hv Hc), Hh. cbn [snd].
+  assert (Hn : is_new (resolve_pi (ref_prog defs) C) = true).
+  { rewrite <- P_ref. unfold validating in Hv. destruct (nearest_deco C); [|discriminate]. now apply andb_true_iff in Hv as [_ Hv]. }
+  rewrite (validations_guarded defs check C (path_via p) h2 r Hi Hn).
+  destruct (first_reject (check true) h2 (dc_fields C) r) as [e|] eqn:E.
   - split.
     + intro H. apply first_reject_none in H. congruence.
     + intros _. exists e. split; reflexivity.
@@ -99,28 +177,59 @@ Proof.
 Qed.
 Print Assumptions C10_instance_iff_conforming_partial.
 
-(* ... and what leaves is PedanticTypeCheckException whenever that is what the checker raises *)
-Theorem C10_rejects_with_type_check_exception : forall check C p st st1 r,
+(* FULL STATEMENT (false, see C10_init_false_without_default_refuted): whatever leaves a validating class instead of an
+   instance is a PedanticTypeCheckException.  Proved under the guard `every field holds a value when the check runs`
+   (all fields of __init__ do; an init=False field needs a default or an assignment in __post_init__): *)
+Theorem C10_rejects_with_type_check_exception_partial : forall check C p st st1 r e0 h2,
   (forall b h a v e, check b h a v = Raise e -> derives e PTypeCheckC = true) ->
-  chain_ok C = true ->
+  (forall f, In f (dc_fields C) -> getattr h2 r (f_name f) <> None) ->
   validating P C = true ->
   path_candidate P C p st = (st1, Ok r) ->
-  user_raises (resolve_pi P C) = None ->
+  hooks_run defs check C p r (s_heap st1) = (e0, h2, Ok tt) ->
   forall e, snd (run_path P check C p st) = Raise e -> derives e PTypeCheckC = true.
 Proof.
-  intros check C p st st1 r Hped Hok Hv Hc Hu e He.
-  destruct (C10_instance_iff_all_contexts check C p st st1 r Hv Hc Hu) as [_ [_ H]].
+  intros check C p st st1 r e0 h2 Hped Hset Hv Hc Hh e He.
+  destruct (C10_instance_iff_all_contexts check C p st st1 r e0 h2 Hv Hc Hh) as [_ [_ [H _]]].
   destruct (H e He) as [b [_ Hb]]. clear H.
-  assert (Hset : forall f, In f (dc_fields C) -> getattr (s_heap st1) r (f_name f) <> None).
-  { unfold path_candidate, bindM in Hc. destruct (path_args P C p st) as [st0 [args|x]]; [|discriminate].
-    intros f Hf. eapply candidate_fields_set; eassumption. }
   revert Hb Hset. induction (dc_fields C) as [|f fs IH]; simpl; [discriminate|]. intros Hb Hset.
-  destruct (getattr (s_heap st1) r (f_name f)) as [v|] eqn:Eg; [|exfalso; apply (Hset f); [now left|assumption]].
-  destruct (check b (s_heap st1) (f_ann f) v) as [[]|e1] eqn:Ec.
+  destruct (getattr h2 r (f_name f)) as [v|] eqn:Eg; [|exfalso; apply (Hset f); [now left|assumption]].
+  destruct (check b h2 (f_ann f) v) as [[]|e1] eqn:Ec.
   - apply IH; [assumption|]. intros g Hg. apply Hset. now right.
   - inversion Hb. subst. eapply Hped. eassumption.
 Qed.
-Print Assumptions C10_rejects_with_type_check_exception.
+Print Assumptions C10_rejects_with_type_check_exception_partial.
+
+(* the guard holds whenever every init=False field has a default (chain_ok), whatever the hooks do: they only add or
+   overwrite attributes *)
+Theorem C10_fields_have_values : forall check C p st st1 r e0 h2 o,
+  chain_ok C = true ->
+  path_candidate P C p st = (st1, Ok r) ->
+  hooks_run defs check C p r (s_heap st1) = (e0, h2, o) ->
+  forall f, In f (dc_fields C) -> getattr h2 r (f_name f) <> None.
+Proof.
+  intros check C p st st1 r e0 h2 o Hok Hc Hh f Hf.
+  assert (H1 : getattr (s_heap st1) r (f_name f) <> None).
+  { unfold path_candidate, bindM in Hc. destruct (path_args P C p st) as [st0 [args|x]]; [|discriminate].
+    eapply candidate_fields_set; eassumption. }
+  pose proof (pi_spec_keeps defs check C r (core (resolve_pi (ref_prog defs) C)) (path_via p)
+                (wraps (resolve_pi (ref_prog defs) C) + 0) (s_heap st1) (f_name f) H1) as H2.
+  unfold hooks_run in Hh. rewrite Hh in H2. exact H2.
+Qed.
+Print Assumptions C10_fields_have_values.
+
+(* the excluded region is real: x: int; y: int = field(init=False), no default, nothing assigns y.  Every request is
+   well formed and every given value conforms, yet the constructor raises AttributeError (getattr in validate_types) -
+   neither an instance nor a PedanticTypeCheckException.  Replayed on the real code (finding C10-initfalse-nodefault) *)
+Definition nf_layer : layer :=
+  mkLayer 0 (Some (mkDeco true [])) [mkField 0 0 DNone true true; mkField 1 1 DNone false true] None.
+Definition nf_check : bool -> heap -> ann -> value -> outcome unit := fun _ _ _ _ => Ok tt.
+Theorem C10_init_false_without_default_refuted :
+  let C := [nf_layer] in let p := ByCtor [(0, VAtom 0)] in let st := mkSt [] [] in
+  validating P C = true /\ chain_ok C = false /\ path_request_ok (dc_fields C) p (s_heap st) = true /\
+  (forall b h a v, nf_check b h a v = Ok tt) /\
+  snd (run_path P nf_check C p st) = Raise AttributeErrorC /\ derives AttributeErrorC PTypeCheckC = false.
+Proof. cbv zeta. repeat split; vm_compute; reflexivity. Qed.
+Print Assumptions C10_init_false_without_default_refuted.
 
 (* the full statement is false: a checker that resolves a name only in the caller's frame (a forward
    reference to a class local to the function that defines and uses the dataclass) accepts the value in
@@ -132,7 +241,7 @@ Definition w_layer : layer :=
   mkLayer 0 (Some (mkDeco true [])) [mkField 0 0 DNone true true] None.
 Theorem C10_instance_iff_conforming_refuted :
   let C := [w_layer] in let kw := [(0, VAtom 0)] in let st := mkSt [] [] in
-  validating P C = true /\ user_raises (resolve_pi P C) = None /\
+  validating P C = true /\ user_of (resolve_pi P C) = None /\
   exists st1 r, run_path P w_check C (ByCtor kw) st = (st1, Ok r) /\
     all_conform (w_check true) (s_heap st1) (dc_fields C) r = true /\
     exists st2 r2, path_candidate P C (ByCopy r []) st1 = (st2, Ok r2) /\
@@ -146,7 +255,7 @@ Qed.
 Print Assumptions C10_instance_iff_conforming_refuted.
 
 (* the full statement is false in a second region: a subclass of a type-safe class that defines __post_init__
-   itself (without calling super().__post_init__()) replaces the hook that carries the check - be it a plain subclass or one
+   itself without calling super().__post_init__() replaces the hook that carries the check - be it a plain subclass or one
    decorated with @frozen_dataclass (type_safe off).  Its instances ARE instances of the type-safe class, yet the
    constructor, copy_with and deep_copy_with return them with a non-conforming field; only validate_types() notices.
    Witness replayed on the real code by harness/dc_common.py (finding C10-override). *)
@@ -157,7 +266,7 @@ Definition o_check : bool -> heap -> ann -> value -> outcome unit :=
   fun _ _ _ v => match v with VAtom 0%Z => Ok tt | _ => Raise PTypeCheckC end.
 Theorem C10_subclass_post_init_refuted : forall sub, sub = o_plain \/ sub = o_deco ->
   let C := [sub; o_parent] in let bad := [(0, VAtom 1)] in let st := mkSt [] [] in
-  validating P [o_parent] = true /\ validating P C = false /\
+  validating P [o_parent] = true /\ validating P C = false /\ checked_last P C = false /\
   (forall b h a v, o_check b h a v = o_check true h a v) /\
   snd (run_path P o_check [o_parent] (ByCtor bad) st) = Raise PTypeCheckC /\
   exists st1 r, run_path P o_check C (ByCtor bad) st = (st1, Ok r) /\
@@ -170,7 +279,8 @@ Theorem C10_subclass_post_init_refuted : forall sub, sub = o_plain \/ sub = o_de
     snd (validate_types P o_check true C r st1) = Raise PTypeCheckC.
 Proof.
   intros sub [->| ->]; cbv zeta;
-    (split; [vm_compute; reflexivity|]); (split; [vm_compute; reflexivity|]); (split; [reflexivity|]);
+    (split; [vm_compute; reflexivity|]); (split; [vm_compute; reflexivity|]); (split; [vm_compute; reflexivity|]);
+    (split; [reflexivity|]);
     (split; [vm_compute; reflexivity|]);
     eexists; eexists; (split; [vm_compute; reflexivity|]); (split; [vm_compute; reflexivity|]);
     (split; [vm_compute; reflexivity|]);
@@ -178,6 +288,42 @@ Proof.
     (split; [eexists; eexists; split; vm_compute; reflexivity|]); vm_compute; reflexivity.
 Qed.
 Print Assumptions C10_subclass_post_init_refuted.
+
+(* ... whereas a subclass hook that ENDS with super().__post_init__() keeps the guarantee: for every class whose
+   __post_init__ attribute ends with a validation (checked_last: a new_post_init, or user bodies that cannot raise
+   afterwards and whose last statement is a super() call reaching one - through any number of classes), every returned
+   instance conforms, with the field values it has when it is returned, under the context of that last validation *)
+Theorem C10_returned_instance_conforms : forall check C p st st' x,
+  checked_last P C = true ->
+  run_path P check C p st = (st', Ok x) ->
+  all_conform (check (final_vis (resolve_pi P C) (path_via p) 0)) (s_heap st') (dc_fields C) x = true.
+Proof.
+  rewrite P_ref. intros check C p st st' x Hv H. unfold checked_last in Hv.
+  destruct (nearest_deco C) as [D|] eqn:HD; [|discriminate]. apply andb_true_iff in Hv as [Hi He].
+  destruct (path_candidate (ref_prog defs) C p st) as [st1 [r|e]] eqn:Hc.
+  - rewrite (path_outcome defs check C D p st st1 r HD Hi Hc) in H. unfold post_init_run in H.
+    destruct (pi_spec defs check C r (resolve_pi (ref_prog defs) C) (path_via p) 0 (s_heap st1)) as [[ev h2] [[]|e]] eqn:E;
+      [|discriminate].
+    inversion H. subst. cbn [s_heap]. eapply ends_checked_sound; eassumption.
+  - rewrite (path_raises_early defs check C p st st1 e) in H by (congruence || assumption). discriminate.
+Qed.
+Print Assumptions C10_returned_instance_conforms.
+
+(* which classes end with a validation: the validating ones, and every subclass (decorated without slots, or plain) whose
+   own __post_init__ cannot raise after its last statement, a super().__post_init__() call *)
+Theorem C10_checked_last_classes : forall L rest,
+  (validating P (L :: rest) = true -> checked_last P (L :: rest) = true) /\
+  (forall b, l_pi L = Some b -> (decorated L && eff_slots P L) = false -> pb_raise b = None ->
+     last_is_super (pb_body b) = true -> checked_last P rest = true -> checked_last P (L :: rest) = true).
+Proof.
+  rewrite P_ref. intros L rest. split.
+  - unfold validating, checked_last. destruct (nearest_deco (L :: rest)); [|discriminate].
+    intro H. apply andb_true_iff in H as [H1 H2]. rewrite H1.
+    assert (G : forall f, is_new f = true -> ends_checked f = true) by (intros [| |? ? ? ?|?] X; simpl in *; congruence).
+    now rewrite (G _ H2).
+  - intros b H1 H2 H3 H4 H5. now destruct (super_last_checked defs L rest b H1 H2 H3 H4 H5).
+Qed.
+Print Assumptions C10_checked_last_classes.
 
 (* when dataclasses itself refuses the arguments (missing / unexpected keyword: TypeError; init=False
    field given to replace(): ValueError) that exception leaves and no instance is returned *)
@@ -187,29 +333,39 @@ Theorem C10_binding_errors_propagate : forall check C p st st1 e,
 Proof. rewrite P_ref. intros. now apply path_raises_early. Qed.
 Print Assumptions C10_binding_errors_propagate.
 
-(* a user-defined __post_init__ still runs, before the check: its journal entry comes first, every check
-   event after it; if it raises, that exception leaves, nothing was checked and no instance is returned *)
+(* a user-defined __post_init__ still runs, before the check: the journal of a validating class is the events of the
+   user-written part - beginning with the entry of the first user hook - followed by the check events of the deciding
+   validations, which read the heap the hooks left; if the user-written part raises, that exception leaves, the
+   wrappers check nothing and no instance is returned *)
 Theorem C10_post_init_runs_first : forall check C p st st1 r,
   validating P C = true ->
   path_candidate P C p st = (st1, Ok r) ->
-  exists checks, forallb is_check checks = true /\
-    s_heap (fst (run_path P check C p st)) = s_heap st1 /\
-    s_journal (fst (run_path P check C p st)) =
-      s_journal st1 ++ match user_of (resolve_pi P C) with Some (c, _) => EPi c :: checks | None => checks end /\
-    (forall e, user_raises (resolve_pi P C) = Some e ->
-       checks = [] /\ snd (run_path P check C p st) = Raise e).
+  exists e0 h2 o0 checks, hooks_run defs check C p r (s_heap st1) = (e0, h2, o0) /\
+    forallb is_check checks = true /\
+    s_heap (fst (run_path P check C p st)) = h2 /\
+    s_journal (fst (run_path P check C p st)) = s_journal st1 ++ e0 ++ checks /\
+    (forall c b, user_of (resolve_pi P C) = Some (c, b) -> exists tl, e0 = EPi c :: tl) /\
+    (user_of (resolve_pi P C) = None -> e0 = []) /\
+    (forall e, o0 = Raise e -> checks = [] /\ snd (run_path P check C p st) = Raise e).
 Proof.
-  rewrite P_ref. intros check C p st st1 r Hv Hc.
-  rewrite (path_outcome _ check C p st st1 r Hv Hc). cbn [fst snd].
-  destruct (pi_spec_events (resolve_pi (ref_prog (p_defaults P)) C) (path_via p) 0
-              (fun b => fst (checks_prefix check b (s_heap st1) r (dc_fields C)))
-              (fun b => snd (checks_prefix check b (s_heap st1) r (dc_fields C))))
-    as [checks [H1 [H2 H3]]].
-  - intro b. apply checks_prefix_events.
-  - apply resolve_pi_wf.
-  - exists checks. split; [assumption|]. split; [reflexivity|]. split.
-    + unfold st_app. cbn [s_journal]. now rewrite H2.
-    + intros e He. split; [now apply (H3 e)|]. now rewrite He.
+  intros check C p st st1 r Hv Hc. rewrite (run_validating check C p st st1 r Hv Hc).
+  destruct (hooks_run defs check C p r (s_heap st1)) as [[e0 h2] o0] eqn:Hh.
+  assert (Hfirst : (forall c b, user_of (resolve_pi P C) = Some (c, b) -> exists tl, e0 = EPi c :: tl) /\
+                   (user_of (resolve_pi P C) = None -> e0 = [])).
+  { revert Hh Hv. rewrite P_ref. intros Hh Hv. unfold hooks_run in Hh. split.
+    - intros c b Hu. destruct (core_user _ _ _ Hu) as [slots [sup Hcore]]. rewrite Hcore in Hh.
+      destruct (pi_spec_user_first defs check C r c b slots sup (path_via p) (wraps (resolve_pi (ref_prog defs) C) + 0) (s_heap st1))
+        as [tl Ht]. rewrite Hh in Ht. now exists tl.
+    - intro Hu. unfold validating in Hv. destruct (nearest_deco C); [|discriminate]. apply andb_true_iff in Hv as [_ Hn].
+      rewrite (core_no_user _ (resolve_pi_wf defs C) Hn Hu) in Hh. inversion Hh. reflexivity. }
+  destruct Hfirst as [F1 F2].
+  destruct o0 as [[]|e].
+  - exists e0, h2, (Ok tt), (fst (val_seq check C r (vis_list (resolve_pi P C) (path_via p) 0) h2)).
+    split; [reflexivity|]. split; [apply val_seq_events|]. split; [reflexivity|]. split; [reflexivity|].
+    split; [assumption|]. split; [assumption|]. intros e He. discriminate.
+  - exists e0, h2, (Raise e), []. split; [reflexivity|]. split; [reflexivity|]. split; [reflexivity|].
+    split; [cbn [fst s_journal]; now rewrite app_nil_r|]. split; [assumption|]. split; [assumption|].
+    intros e' He. inversion He. subst. split; reflexivity.
 Qed.
 Print Assumptions C10_post_init_runs_first.
 
@@ -224,7 +380,7 @@ Theorem C10_validate_types_iff : forall check vis C r st,
              first_reject (check vis) (s_heap st) (dc_fields C) r = Some e).
 Proof.
   rewrite P_ref. intros check vis C r st HD.
-  destruct (validate_outcome (p_defaults P) check vis C r st HD) as [checks [_ H]]. rewrite H. cbn [fst snd].
+  destruct (validate_outcome defs check vis C r st HD) as [checks [_ H]]. rewrite H. cbn [fst snd].
   split; [reflexivity|].
   destruct (first_reject (check vis) (s_heap st) (dc_fields C) r) as [e|] eqn:E; simpl.
   - split.
@@ -236,9 +392,9 @@ Proof.
 Qed.
 Print Assumptions C10_validate_types_iff.
 
-(* which classes validate: a class decorated with type_safe=True (any other options, any bases), and every
-   subclass of a validating class - decorated (with or without type_safe, with or without slots) or not
-   decorated at all - that does not replace __post_init__ *)
+(* which classes validate: a class decorated with type_safe=True (any other options, any bases, with or without its own
+   __post_init__), and every subclass of a validating class - decorated (with or without type_safe, with or without
+   slots) or not decorated at all - that does not define __post_init__ *)
 Theorem C10_validating_classes : forall L rest,
   (decorated L = true -> param_of P L PTypeSafe = true -> validating P (L :: rest) = true) /\
   (l_pi L = None -> validating P rest = true -> validating P (L :: rest) = true).
@@ -252,78 +408,80 @@ Qed.
 Print Assumptions C10_validating_classes.
 
 (* the property in terms of a specification of conformance: whenever the checker accepts what must
-   conform and rejects with PedanticTypeCheckException what must not (C01/C02 for Model/Checker.v) *)
-Theorem C10_against_specification : forall check (must mustnot : heap -> ann -> value -> bool) C p st st1 r,
-  ctx_irrelevant (p_defaults P) check C (path_via p) ->
+   conform and rejects with PedanticTypeCheckException what must not (C01/C02 for Model/Checker.v).
+   FULL STATEMENT: without the two guards (see the three refutations).  The verdicts are taken on the heap h2 the
+   user-written __post_init__ left; `field_is q f = false` for a field without value, so the second clause needs no
+   separate guard for init=False fields without default *)
+Theorem C10_against_specification_partial : forall check (must mustnot : heap -> ann -> value -> bool) C p st st1 r e0 h2,
+  ctx_irrelevant defs check C (path_via p) ->
   (forall h a v, must h a v = true -> check true h a v = Ok tt) ->
   (forall h a v, mustnot h a v = true -> exists e, check true h a v = Raise e /\ derives e PTypeCheckC = true) ->
-  chain_ok C = true -> validating P C = true ->
+  validating P C = true ->
   path_candidate P C p st = (st1, Ok r) ->
-  user_raises (resolve_pi P C) = None ->
+  hooks_run defs check C p r (s_heap st1) = (e0, h2, Ok tt) ->
   let field_is (q : heap -> ann -> value -> bool) f :=
-    match getattr (s_heap st1) r (f_name f) with Some v => q (s_heap st1) (f_ann f) v | None => false end in
+    match getattr h2 r (f_name f) with Some v => q h2 (f_ann f) v | None => false end in
   (forallb (field_is must) (dc_fields C) = true -> snd (run_path P check C p st) = Ok r) /\
   (forall pre f post, dc_fields C = pre ++ f :: post -> forallb (field_is must) pre = true -> field_is mustnot f = true ->
      exists e, snd (run_path P check C p st) = Raise e /\ derives e PTypeCheckC = true).
 Proof.
-  intros check must mustnot C p st st1 r Hi Hm Hn Hok Hv Hc Hu field_is.
-  destruct (C10_instance_iff_conforming_partial check C p st st1 r Hi Hv Hc Hu) as [A B].
+  intros check must mustnot C p st st1 r e0 h2 Hi Hm Hn Hv Hc Hh field_is.
+  destruct (C10_instance_iff_conforming_partial check C p st st1 r e0 h2 Hi Hv Hc Hh) as [A B].
   split.
   - intro H. apply A. unfold all_conform. rewrite forallb_forall in *. intros f Hf. specialize (H f Hf).
-    unfold field_is in H. destruct (getattr (s_heap st1) r (f_name f)); [|discriminate]. now rewrite (Hm _ _ _ H).
+    unfold field_is in H. destruct (getattr h2 r (f_name f)); [|discriminate]. now rewrite (Hm _ _ _ H).
   - intros pre f post Hd Hpre Hf.
-    assert (Hfr : exists e, first_reject (check true) (s_heap st1) (dc_fields C) r = Some e /\ derives e PTypeCheckC = true).
+    assert (Hfr : exists e, first_reject (check true) h2 (dc_fields C) r = Some e /\ derives e PTypeCheckC = true).
     { rewrite Hd. clear Hd. induction pre as [|g pre IH]; simpl.
-      - unfold field_is in Hf. destruct (getattr (s_heap st1) r (f_name f)) as [v|]; [|discriminate].
+      - unfold field_is in Hf. destruct (getattr h2 r (f_name f)) as [v|]; [|discriminate].
         destruct (Hn _ _ _ Hf) as [e [E1 E2]]. rewrite E1. now exists e.
       - simpl in Hpre. apply andb_true_iff in Hpre as [Hg Hpre]. unfold field_is in Hg.
-        destruct (getattr (s_heap st1) r (f_name g)) as [v|]; [|discriminate]. rewrite (Hm _ _ _ Hg). now apply IH. }
+        destruct (getattr h2 r (f_name g)) as [v|]; [|discriminate]. rewrite (Hm _ _ _ Hg). now apply IH. }
     destruct Hfr as [e [E1 E2]]. exists e. split; [|assumption].
-    destruct (all_conform (check true) (s_heap st1) (dc_fields C) r) eqn:Eall.
+    destruct (all_conform (check true) h2 (dc_fields C) r) eqn:Eall.
     + apply first_reject_none in Eall. congruence.
     + destruct (B eq_refl) as [e' [F1 F2]]. congruence.
 Qed.
-Print Assumptions C10_against_specification.
+Print Assumptions C10_against_specification_partial.
 
 (* ... instantiated: with the checker of Model/Checker.v under the tables regenerated from check_types.py
    (what Model/DataclassEval.v evaluates), against Spec/Conforms.v, using C01/C02 (Proofs/CheckerTop.v).
    E: annotation objects, atoms and names of a concrete program; field_verdict = conforms on the annotation
-   object and the value tree of the field, under the context the validation runs in.
+   object and the value tree of the field (in the heap the hooks left), under the context the validation runs in.
    (1) every field must conform => the instance is returned; (2) all annotations in the vocabulary and some
    field must not conform => PedanticTypeCheckException, on every path *)
 Theorem C10_real_checker_good : CheckerGood.cfg_good DataclassReal.real_cfg = true.
 Proof. vm_compute. reflexivity. Qed.
 Print Assumptions C10_real_checker_good.
 
-Theorem C10_real_checker : forall E C p st st1 r,
+Theorem C10_real_checker : forall E C p st st1 r e0 h2,
   let check := DataclassEval.check_real E in
   validating P C = true ->
   path_candidate P C p st = (st1, Ok r) ->
-  user_raises (resolve_pi P C) = None ->
+  hooks_run defs check C p r (s_heap st1) = (e0, h2, Ok tt) ->
   let contexts := vis_list (resolve_pi P C) (path_via p) 0 in
-  ((forall b, In b contexts -> DataclassReal.all_must E b (s_heap st1) (dc_fields C) r) ->
+  ((forall b, In b contexts -> DataclassReal.all_must E b h2 (dc_fields C) r) ->
      snd (run_path P check C p st) = Ok r) /\
-  ((forall b, In b contexts -> DataclassReal.all_decided E b (s_heap st1) (dc_fields C) r) ->
+  ((forall b, In b contexts -> DataclassReal.all_decided E b h2 (dc_fields C) r) ->
    (exists b f, In b contexts /\ In f (dc_fields C) /\
-                DataclassReal.field_verdict E b (s_heap st1) r f = Some Conforms.MustNot) ->
+                DataclassReal.field_verdict E b h2 r f = Some Conforms.MustNot) ->
      exists e, snd (run_path P check C p st) = Raise e /\ derives e PTypeCheckC = true).
 Proof.
-  intros E C p st st1 r check Hv Hc Hu contexts. subst contexts check.
-  destruct (C10_instance_iff_all_contexts (DataclassEval.check_real E) C p st st1 r Hv Hc Hu) as [Hiff [_ Hr]]. split.
+  intros E C p st st1 r e0 h2 check Hv Hc Hh contexts. subst contexts check.
+  destruct (C10_instance_iff_all_contexts (DataclassEval.check_real E) C p st st1 r e0 h2 Hv Hc Hh) as [Hiff [Hx [Hr _]]]. split.
   - intro Hm. apply Hiff. intros b Hb. apply (DataclassReal.all_must_conform C10_real_checker_good). now apply Hm.
   - intros Hd [b [f [Hb [Hf Hn]]]].
     destruct (snd (run_path P (DataclassEval.check_real E) C p st)) as [x|e] eqn:Eo.
-    + exfalso. assert (Hx : x = r).
-      { destruct (C10_instance_iff_all_contexts (DataclassEval.check_real E) C p st st1 r Hv Hc Hu) as [_ [Hx _]]. apply Hx. exact Eo. }
-      subst x. pose proof (proj1 Hiff eq_refl b Hb) as Ha.
-      rewrite (DataclassReal.mustnot_rejects C10_real_checker_good E b (s_heap st1) (dc_fields C) r f Hf Hn) in Ha. discriminate.
+    + exfalso. assert (x = r) by (now apply Hx). subst x. pose proof (proj1 Hiff eq_refl b Hb) as Ha.
+      rewrite (DataclassReal.mustnot_rejects C10_real_checker_good E b h2 (dc_fields C) r f Hf Hn) in Ha. discriminate.
     + exists e. split; [reflexivity|]. destruct (Hr e eq_refl) as [b' [Hb' Hfr]].
       eapply (DataclassReal.decided_reject_is_type_check C10_real_checker_good); [apply Hd; exact Hb'|exact Hfr].
 Qed.
 Print Assumptions C10_real_checker.
 
-(* ---- non-vacuity: a two-level hierarchy (type-safe parent with a user __post_init__, undecorated
-   child), a checker that accepts even atoms; hypotheses hold, both directions really occur, on all paths *)
+(* ---- non-vacuity: a two-level hierarchy (type-safe parent with a user __post_init__ that normalises field 0 when it
+   holds 3, undecorated child), a checker that accepts even atoms; hypotheses hold, both directions really occur, on
+   all paths *)
 Definition ex_check : bool -> heap -> ann -> value -> outcome unit :=
   fun _ _ a v => match v with VAtom z => if Z.even z then Ok tt else Raise PTypeCheckC | VRef _ => Ok tt end.
 Definition ex_parent : layer :=
@@ -334,11 +492,15 @@ Definition ex_child : layer := mkLayer 2 None [] None.
 Example C10_example :
   let C := [ex_child; ex_parent] in let st := mkSt [] [] in
   validating P C = true /\ chain_ok C = true /\ user_raises (resolve_pi P C) = None /\
+  path_request_ok (dc_fields C) (ByCtor [(0, VAtom 2)]) [] = true /\
+  hooks_run defs ex_check C (ByCtor [(0, VAtom 2)]) 1 (s_heap (fst (path_candidate P C (ByCtor [(0, VAtom 2)]) st)))
+    = ([EPi 1], s_heap (fst (path_candidate P C (ByCtor [(0, VAtom 2)]) st)), Ok tt) /\
   (forall b h a v, ex_check b h a v = ex_check true h a v) /\
   snd (run_path P ex_check C (ByCtor [(0, VAtom 2)]) st) = Ok 1 /\
   snd (run_path P ex_check C (ByCtor [(0, VAtom 3)]) st) = Raise PTypeCheckC /\
   (let st1 := fst (run_path P ex_check C (ByCtor [(0, VAtom 2)]) st) in
    s_journal st1 = [EPi 1; ECheck 0 (VAtom 2); ECheck 1 (VRef 0); ECheck 2 (VAtom 4)] /\
+   path_request_ok (dc_fields C) (ByCopy 1 [(0, VAtom 6)]) (s_heap st1) = true /\
    snd (run_path P ex_check C (ByCopy 1 [(0, VAtom 6)]) st1) = Ok 2 /\
    snd (run_path P ex_check C (ByCopy 1 [(0, VAtom 7)]) st1) = Raise PTypeCheckC /\
    snd (run_path P ex_check C (ByDeep 1 [(0, VAtom 8)]) st1) = Ok 8 /\
@@ -347,10 +509,48 @@ Example C10_example :
    snd (run_path P ex_check C (ByCtor []) st1) = Raise TypeErrorC).
 Proof. cbv zeta. repeat split; vm_compute; reflexivity. Qed.
 
+(* hooks with a heap effect: the check reads the values the hook left.  B2: the hook sets field 0 to 4 - the
+   non-conforming keyword value 3 is accepted (instance with 4); B3: the hook sets it to 5 - the conforming 2 is
+   rejected; A3: an init=False field without default that the hook assigns - no AttributeError, the guard of
+   C10_rejects_with_type_check_exception_partial holds although chain_ok does not *)
+Definition hk (body : list pistmt) : layer :=
+  mkLayer 0 (Some (mkDeco true [])) [mkField 0 0 DNone true true] (Some (mkPib body None)).
+Definition a3 : layer :=
+  mkLayer 0 (Some (mkDeco true [])) [mkField 0 0 DNone true true; mkField 1 1 DNone false true] (Some (mkPib [PSet 1 (VAtom 6)] None)).
+Example C10_hook_examples :
+  let st := mkSt [] [] in
+  validating P [hk [PSet 0 (VAtom 4)]] = true /\
+  run_path P ex_check [hk [PSet 0 (VAtom 4)]] (ByCtor [(0, VAtom 3)]) st
+    = (mkSt [mkObj (KData 0) [] [(0, VAtom 4)]] [EPi 0; ECheck 0 (VAtom 4)], Ok 0) /\
+  run_path P ex_check [hk [PSet 0 (VAtom 5)]] (ByCtor [(0, VAtom 2)]) st
+    = (mkSt [mkObj (KData 0) [] [(0, VAtom 5)]] [EPi 0; ECheck 0 (VAtom 5)], Raise PTypeCheckC) /\
+  hooks_run defs ex_check [hk [PSet 0 (VAtom 5)]] (ByCtor [(0, VAtom 2)]) 0 [mkObj (KData 0) [] [(0, VAtom 2)]]
+    = ([EPi 0], [mkObj (KData 0) [] [(0, VAtom 5)]], Ok tt) /\
+  validating P [a3] = true /\ chain_ok [a3] = false /\
+  run_path P ex_check [a3] (ByCtor [(0, VAtom 2)]) st
+    = (mkSt [mkObj (KData 0) [] [(0, VAtom 2); (1, VAtom 6)]] [EPi 0; ECheck 0 (VAtom 2); ECheck 1 (VAtom 6)], Ok 0).
+Proof. cbv zeta. repeat split; vm_compute; reflexivity. Qed.
+
+(* super(): a plain subclass whose hook repairs the field and then calls super().__post_init__() is checked AFTER the
+   repair (checked_last, C10_returned_instance_conforms applies); one that calls super() first and spoils the field
+   afterwards returns a non-conforming instance - the region of finding C10-override (checked_last = false) *)
+Definition sup_first : layer := mkLayer 1 None [] (Some (mkPib [PSuper; PSet 0 (VAtom 5)] None)).
+Definition sup_last : layer := mkLayer 1 None [] (Some (mkPib [PSet 0 (VAtom 4); PSuper] None)).
+Example C10_super_examples :
+  let st := mkSt [] [] in
+  checked_last P [sup_last; o_parent] = true /\ validating P [sup_last; o_parent] = false /\
+  run_path P ex_check [sup_last; o_parent] (ByCtor [(0, VAtom 3)]) st
+    = (mkSt [mkObj (KData 1) [] [(0, VAtom 4)]] [EPi 1; ECheck 0 (VAtom 4)], Ok 0) /\
+  checked_last P [sup_first; o_parent] = false /\
+  run_path P ex_check [sup_first; o_parent] (ByCtor [(0, VAtom 2)]) st
+    = (mkSt [mkObj (KData 1) [] [(0, VAtom 5)]] [EPi 1; ECheck 0 (VAtom 2)], Ok 0) /\
+  snd (run_path P ex_check [sup_first; o_parent] (ByCtor [(0, VAtom 3)]) st) = Raise PTypeCheckC.
+Proof. cbv zeta. repeat split; vm_compute; reflexivity. Qed.
+
 (* the context guard is strictly weaker than "the checker never looks at the caller's names": the checker of the
    refutation witness satisfies it on the constructor path of a class with one type-safe layer *)
 Example C10_guard_example :
-  ctx_irrelevant (p_defaults P) w_check [w_layer] VCtor /\ ~ vis_indep w_check.
+  ctx_irrelevant defs w_check [w_layer] VCtor /\ ~ vis_indep w_check.
 Proof.
   split.
   - left. intros b Hb. vm_compute in Hb. destruct Hb as [<-|[]]. reflexivity.
